@@ -4,28 +4,32 @@
 EXTENDS History, Json
 
 CONSTANTS DAGs, RQ, MaxTs, MaxSt, MaxOps
-VARIABLES ops          \* history: operations so far (output only)
-mvars == <<runs, open, ops>>
-View == <<runs, open, Len(ops)>>
+VARIABLES ops,         \* history: operations so far (output only)
+          done
+mvars == <<runs, open, ops, done>>
+View == <<runs, open, Len(ops), done>>
 
 StatusId(r, k) == r \o "." \o ToString(k)
 NextSt(r) == StatusId(r, Len(runs[r].st) + 1)
 UsedTs == {runs[r].ts : r \in Reqs}
 Op(o) == ops' = Append(ops, o)
 
-MInit == Init /\ ops = <<>>
-MNext ==
-  /\ Len(ops) < MaxOps
+MInit == Init /\ ops = <<>> /\ done = FALSE
+\* deterministic last step: the simulator evaluates invariants on every successor it generates
+Finish == Len(ops) = MaxOps /\ ~done /\ done' = TRUE /\ UNCHANGED <<runs, open, ops>>
+MStep ==
+  /\ Len(ops) < MaxOps /\ UNCHANGED done
   /\ \/ \E d \in DAGs, r \in RQ \ Reqs, ts \in (1..MaxTs) \ UsedTs : Open(d, r, ts) /\ Op([op |-> "Open", d |-> d, r |-> r, ts |-> ts])
      \/ /\ open # NoRun /\ Len(runs[open].st) < MaxSt /\ Write(NextSt(open)) /\ Op([op |-> "Write", st |-> NextSt(open)])
      \/ /\ open # NoRun /\ Close /\ Op([op |-> "Close"])
      \/ \E d \in DAGs, r \in RQ : /\ r # open /\ (r \in Reqs => Len(runs[r].st) < MaxSt)
-                                  /\ r \in Reqs \/ (d = "d1" /\ r = CHOOSE x \in RQ \ Reqs : TRUE)   \* one unknown-run update is enough
+                                  /\ r \in Reqs \/ (RQ \ Reqs # {} /\ d = "d1" /\ r = CHOOSE x \in RQ \ Reqs : TRUE)   \* one unknown-run update is enough
                                   /\ LET s == IF r \in Reqs THEN NextSt(r) ELSE StatusId(r, 9) IN
                                      Update(d, r, s) /\ Op([op |-> "Update", d |-> d, r |-> r, st |-> s])
      \/ \E d, d2 \in DAGs : d # d2 /\ open \notin RunsOf(d) /\ Rename(d, d2) /\ Op([op |-> "Rename", d |-> d, to |-> d2])
      \/ \E d \in DAGs, days \in {0, 7} : open \notin RunsOf(d) /\ RemoveOld(d, days) /\ Op([op |-> "RemoveOld", d |-> d, days |-> days])
      \/ \E r \in Reqs : r # open /\ runs[r].age = 0 /\ SetAge(r, 30) /\ Op([op |-> "SetAge", r |-> r, age |-> 30])
+MNext == Finish \/ MStep
 MSpec == MInit /\ [][MNext]_mvars
 
 \* ---- C06 as properties of the design ----------------------------------------------------
@@ -49,6 +53,5 @@ C06_FindIsLast == \A r \in Reqs : HasStatus(r) => Find(runs[r].dag, r) = Last(r)
 TypeOK == /\ open \in Reqs \cup {NoRun}
           /\ \A r \in Reqs : runs[r].dag \in DAGs /\ runs[r].ts \in 1..MaxTs
 
-Quiet == Len(ops) = MaxOps
-EmitBehaviour == Quiet => PrintT("BEHAVIOUR " \o ToJson([ops |-> ops]))
+EmitBehaviour == done => PrintT("BEHAVIOUR " \o ToJson([ops |-> ops]))
 =============================================================================
